@@ -1,0 +1,114 @@
+//! Runtime-verification support (feature `verif`, off by default).
+//!
+//! A process-global, mutex-protected, bounded event log and named counters that hooks in other
+//! crates append to, a seeded `yield_point` used to perturb thread schedules at task boundaries,
+//! and a thread-local logical progress counter.
+
+use std::cell::Cell;
+use std::collections::BTreeMap;
+use std::sync::Mutex;
+use std::sync::atomic::{AtomicU64, Ordering};
+
+/// Maximal number of events kept in the log; later events are counted but dropped.
+const MAX_EVENTS: usize = 1 << 16;
+
+static EVENTS: Mutex<Vec<(&'static str, String)>> = Mutex::new(Vec::new());
+static COUNTERS: Mutex<BTreeMap<String, u64>> = Mutex::new(BTreeMap::new());
+static DROPPED_EVENTS: AtomicU64 = AtomicU64::new(0);
+/// Seed of the schedule perturbation; 0 means `yield_point` does nothing.
+static YIELD_SEED: AtomicU64 = AtomicU64::new(0);
+static YIELD_THREAD_COUNTER: AtomicU64 = AtomicU64::new(0);
+
+thread_local! {
+    static YIELD_STATE: Cell<u64> = const { Cell::new(0) };
+    static PROGRESS: Cell<u64> = const { Cell::new(0) };
+}
+
+/// Appends an event to the global log.
+pub fn event(kind: &'static str, detail: String) {
+    let mut events = EVENTS.lock().unwrap_or_else(|e| e.into_inner());
+    if events.len() < MAX_EVENTS {
+        events.push((kind, detail));
+    } else {
+        DROPPED_EVENTS.fetch_add(1, Ordering::Relaxed);
+    }
+}
+
+/// Removes and returns all logged events.
+pub fn take_events() -> Vec<(&'static str, String)> {
+    std::mem::take(&mut *EVENTS.lock().unwrap_or_else(|e| e.into_inner()))
+}
+
+/// Number of events that did not fit into the log.
+pub fn dropped_events() -> u64 {
+    DROPPED_EVENTS.load(Ordering::Relaxed)
+}
+
+/// Adds `n` to the named counter.
+pub fn count(key: &str, n: u64) {
+    let mut counters = COUNTERS.lock().unwrap_or_else(|e| e.into_inner());
+    if let Some(v) = counters.get_mut(key) {
+        *v += n;
+    } else {
+        counters.insert(key.to_string(), n);
+    }
+}
+
+/// Returns a snapshot of all counters.
+pub fn counters() -> BTreeMap<String, u64> {
+    COUNTERS.lock().unwrap_or_else(|e| e.into_inner()).clone()
+}
+
+/// Resets all counters.
+pub fn reset_counters() {
+    COUNTERS.lock().unwrap_or_else(|e| e.into_inner()).clear();
+}
+
+/// Sets the seed of the schedule perturbation (0 disables it).
+pub fn set_yield_seed(seed: u64) {
+    YIELD_SEED.store(seed, Ordering::SeqCst);
+}
+
+/// A point at which the calling task may be delayed by a seeded pseudo-random amount (0-200us) or
+/// yield. Placed only at task boundaries, where the real scheduler may already reorder work.
+pub fn yield_point(_site: &'static str) {
+    let seed = YIELD_SEED.load(Ordering::Relaxed);
+    if seed == 0 {
+        return;
+    }
+    let r = YIELD_STATE.with(|s| {
+        let mut x = s.get();
+        if x == 0 {
+            x = seed
+                ^ YIELD_THREAD_COUNTER
+                    .fetch_add(1, Ordering::Relaxed)
+                    .wrapping_add(1)
+                    .wrapping_mul(0x9E37_79B9_7F4A_7C15);
+        }
+        // xorshift64*.
+        x ^= x >> 12;
+        x ^= x << 25;
+        x ^= x >> 27;
+        s.set(x);
+        x.wrapping_mul(0x2545_F491_4F6C_DD1D) >> 32
+    });
+    match r % 4 {
+        0 => {}
+        1 => std::thread::yield_now(),
+        _ => std::thread::sleep(std::time::Duration::from_micros(r % 200)),
+    }
+}
+
+/// Increments the thread-local progress counter and returns its new value.
+pub fn progress_tick() -> u64 {
+    PROGRESS.with(|p| {
+        let v = p.get() + 1;
+        p.set(v);
+        v
+    })
+}
+
+/// Resets the thread-local progress counter.
+pub fn progress_reset() {
+    PROGRESS.with(|p| p.set(0));
+}
